@@ -122,7 +122,12 @@ def _wrap_path_func(name, real, idxs):
             flags = a[1] if len(a) > 1 else k.get("flags", 0)
             mode = "w" if flags & (os.O_WRONLY | os.O_RDWR | os.O_CREAT | os.O_TRUNC | os.O_APPEND) else "r"
         ctx.fire(Event(nm, paths, mode))
-        return real(*a, **k)
+        res = real(*a, **k)
+        if name in ("stat", "lstat"):
+            flt = getattr(ctx, "stat_filter", None)
+            if flt is not None:
+                res = flt(res)
+        return res
     w.__name__ = name
     w.__wrapped__ = real
     return w
@@ -340,3 +345,13 @@ def trace_call(root, fn):
     with active(root, evs.append):
         out = call(fn)
     return out, evs
+
+
+def coarse_mtime_filter(granularity_s):
+    """stat_filter simulating a file system whose timestamps have the given granularity (ext3 / HFS+ have
+    1 s, FAT 2 s): st_atime / st_mtime / st_ctime are truncated, the sub-second fields disappear."""
+    def flt(st):
+        g = granularity_s
+        return os.stat_result((st.st_mode, st.st_ino, st.st_dev, st.st_nlink, st.st_uid, st.st_gid, st.st_size,
+                               int(st.st_atime // g * g), int(st.st_mtime // g * g), int(st.st_ctime // g * g)))
+    return flt
